@@ -32,6 +32,7 @@ type Alpha struct {
 	Exports       bool  // open (and fully read) / close an export of a retained version: pins the version
 	ColdDelTo     bool  // pruning by DeleteVersionsTo on a fresh instance that has not loaded anything, then Load
 	ColdDelFrom   bool  // rollback by DeleteVersionsFrom on a fresh instance that has not loaded anything, then Load
+	UseAll        bool  // one macro read-only operation that calls every read entry point once (never twice in a row)
 	Hold          bool  // once per history: keep the ImmutableTree of every retained version and re-read it later
 }
 
@@ -82,6 +83,9 @@ func (a Alpha) Ops(w *World, s *Spec) []Op {
 	}
 	if a.ReadAll && w.Cfg.Cache > 0 {
 		ops = append(ops, Op{Kind: OpRead, Arg: 12})
+	}
+	if a.UseAll && !(w.LastOp.Kind == OpRead && w.LastOp.Arg == 13) {
+		ops = append(ops, Op{Kind: OpRead, Arg: 13})
 	}
 	if a.HashReads && len(m.WorkC) > 0 {
 		ops = append(ops, Op{Kind: OpRead, Arg: 7}, Op{Kind: OpRead, Arg: 8, Key: s.Keys[0]})
